@@ -323,6 +323,7 @@ func schedSetup(n int) {
 	}
 	nG = n
 	curG = -1
+	heldLocks = 0
 	schedOn = true
 }
 
